@@ -1053,3 +1053,555 @@ Proof.
         * rewrite app_length. cbn [length]. lia. }
   exact (Hs _ H eq_refl).
 Qed.
+
+
+(* ================================================================== messages *)
+Lemma sapp_nil_r (s : string) : (s ++ "")%string = s.
+Proof. induction s; cbn; congruence. Qed.
+
+Lemma format_T_func f m :
+  py_format T_func [f] [("e", m)] = Ok ("Cannot evaluate function `" ++ f ++ "`:" ++ nl ++ " " ++ m)%string.
+Proof. cbn. rewrite sapp_nil_r. reflexivity. Qed.
+
+Lemma format_T_field f m :
+  py_format T_field [f] [("e", m)] = Ok ("Problem rendering field " ++ f ++ ":" ++ nl ++ " " ++ m)%string.
+Proof. cbn. rewrite sapp_nil_r. reflexivity. Qed.
+
+Lemma format_T_var f m :
+  py_format T_var [f] [("e", m)] = Ok ("Cannot evaluate variable `" ++ f ++ "`:" ++ nl ++ " " ++ m)%string.
+Proof. cbn. rewrite sapp_nil_r. reflexivity. Qed.
+
+Lemma format_T_parse c d m :
+  py_format T_parse (chars (String c d)) [("e", m)] = Ok ("Cannot parse value " ++ String c "")%string.
+Proof. reflexivity. Qed.
+
+Lemma format_T_parse_empty m : py_format T_parse (chars "") [("e", m)] = Err (Internal "IndexError").
+Proof. reflexivity. Qed.
+
+(* a compile failure needs one of Jinja's delimiters in the definition, so the definition is not empty *)
+Definition iframe_possible (f : iframe) : bool :=
+  match f with IFDefEHCompile d => nonempty d | _ => true end.
+
+Lemma compile_can_raise_nonempty d : compile_can_raise d = true -> nonempty d = true.
+Proof. destruct d; [vm_compute; discriminate | reflexivity]. Qed.
+
+Lemma is_dge_cls e : is_dge e = true -> x_cls e = EDGE.
+Proof. unfold is_dge. destruct (x_cls e); [reflexivity|discriminate]. Qed.
+
+Lemma is_dge_false_cls e : is_dge e = false -> exists n, x_cls e = EPy n.
+Proof. unfold is_dge. destruct (x_cls e); [discriminate|eauto]. Qed.
+
+(* every wrapper builds its message whatever text it is given, and raises what the frame model says *)
+Lemma wrap_total f e :
+  iframe_possible f = true ->
+  exists e', wrap f e = Ok e' /\ x_cls e' = through (erase f) (x_cls e).
+Proof.
+  intros Hp. destruct f; cbn [wrap erase through].
+  - eexists; split; reflexivity.
+  - unfold fix_exception. rewrite format_T_func. eexists; split; reflexivity.
+  - cbn in Hp. destruct definition as [|c d]; [discriminate|].
+    unfold fix_exception. rewrite format_T_parse. eexists; split; reflexivity.
+  - unfold fix_exception. rewrite format_T_field. eexists; split; reflexivity.
+  - destruct (is_dge e) eqn:Hd.
+    + eexists; split; [reflexivity|]. now apply is_dge_cls.
+    + eexists; split; reflexivity.
+  - destruct (is_dge e) eqn:Hd.
+    + eexists; split; [reflexivity|]. now apply is_dge_cls.
+    + unfold fix_exception. rewrite format_T_var. eexists; split; reflexivity.
+  - destruct (is_count_conversion_error (x_cls e)); eexists; split; reflexivity.
+  - eexists; split; reflexivity.
+Qed.
+
+Lemma wrap_or_replace_ok f e e' : wrap f e = Ok e' -> wrap_or_replace f e = e'.
+Proof. unfold wrap_or_replace. now intros ->. Qed.
+
+Lemma fold_wrap_class fs : forall e,
+  forallb iframe_possible fs = true ->
+  x_cls (fold_left (fun e f => wrap_or_replace f e) fs e)
+  = fold_left (fun e f => through f e) (map erase fs) (x_cls e).
+Proof.
+  induction fs as [|f fs IH]; intros e Hp; cbn [fold_left map]; [reflexivity|].
+  cbn in Hp. apply andb_prop in Hp as [Hf Hfs].
+  destruct (wrap_total f e Hf) as [e' [Hw Hc]].
+  rewrite (wrap_or_replace_ok _ _ _ Hw), IH by assumption. now rewrite Hc.
+Qed.
+
+Lemma istep_frames_erase s : map erase (istep_frames s) = step_frames (erase_step s).
+Proof. destruct s; reflexivity. Qed.
+
+Lemma ileaf_frames_erase l : map erase (ileaf_frames l) = leaf_frames (erase_leaf l).
+Proof. destruct l; reflexivity. Qed.
+
+Lemma iframes_erase p l : map erase (iframes p l) = frames (map erase_step p) (erase_leaf l).
+Proof.
+  induction p as [|s p IH]; cbn [iframes frames map].
+  - now rewrite map_app, ileaf_frames_erase.
+  - now rewrite map_app, IH, istep_frames_erase.
+Qed.
+
+Lemma istep_frames_possible s : forallb iframe_possible (istep_frames s) = true.
+Proof. destruct s; reflexivity. Qed.
+
+Lemma iframes_possible p l : ileaf_possible l = true -> forallb iframe_possible (iframes p l) = true.
+Proof.
+  intros Hl. induction p as [|s p IH]; cbn [iframes]; rewrite forallb_app.
+  - apply andb_true_intro; split; [|reflexivity].
+    destruct l; try reflexivity. cbn in *. now rewrite (compile_can_raise_nonempty _ Hl).
+  - now rewrite IH, istep_frames_possible.
+Qed.
+
+(* the text-carrying model refines the frame model: same class, whatever the text *)
+Theorem escape_v_class p l e :
+  ileaf_possible l = true ->
+  x_cls (escape_v p l e) = escape (map erase_step p) (erase_leaf l) (x_cls e).
+Proof.
+  intros Hl. unfold escape_v, escape.
+  now rewrite fold_wrap_class, iframes_erase by now apply iframes_possible.
+Qed.
+
+(* no handler ever fails while it builds its message *)
+Theorem escape_v_no_replacement fs : forall e,
+  forallb iframe_possible fs = true ->
+  forall f pre post, fs = pre ++ f :: post ->
+  exists e', wrap f (fold_left (fun e f => wrap_or_replace f e) pre e) = Ok e'.
+Proof.
+  intros e Hp f pre post ->. rewrite forallb_app in Hp. apply andb_prop in Hp as [_ Hp].
+  cbn in Hp. apply andb_prop in Hp as [Hf _].
+  destruct (wrap_total f (fold_left (fun e f => wrap_or_replace f e) pre e) Hf) as [e' [H _]]. eauto.
+Qed.
+
+(* ---- the line: whatever was not a DataGenError at the leaf knows its line when it leaves *)
+Definition located (e : exnv) : Prop := is_dge e = true -> x_line e = true.
+
+Lemma wrap_located f e : iframe_possible f = true -> located e -> located (wrap_or_replace f e).
+Proof.
+  intros Hp He. destruct (wrap_total f e Hp) as [e' [Hw _]]. rewrite (wrap_or_replace_ok _ _ _ Hw).
+  destruct f; cbn [wrap] in Hw; unfold fix_exception in Hw;
+    try rewrite format_T_func in Hw; try rewrite format_T_field in Hw; try rewrite format_T_var in Hw.
+  all: try (inversion Hw; subst; intros _; reflexivity).
+  - cbn in Hp. destruct definition; [discriminate|]. rewrite format_T_parse in Hw. inversion Hw; subst. intros _; reflexivity.
+  - destruct (is_dge e) eqn:Hd; inversion Hw; subst; [exact He | intros _; reflexivity].
+  - destruct (is_dge e) eqn:Hd.
+    + inversion Hw; subst. exact He.
+    + inversion Hw; subst. intros _; reflexivity.
+  - destruct (is_count_conversion_error (x_cls e)); inversion Hw; subst; [intros _; reflexivity | exact He].
+  - inversion Hw; subst. exact He.
+Qed.
+
+Lemma fold_located fs : forall e,
+  forallb iframe_possible fs = true -> located e ->
+  located (fold_left (fun e f => wrap_or_replace f e) fs e).
+Proof.
+  induction fs as [|f fs IH]; intros e Hp He; cbn [fold_left]; [exact He|].
+  cbn in Hp. apply andb_prop in Hp as [Hf Hfs]. apply IH; [assumption|]. now apply wrap_located.
+Qed.
+
+Theorem escape_v_located p l e n :
+  ileaf_possible l = true -> x_cls e = EPy n ->
+  is_dge (escape_v p l e) = true -> x_line (escape_v p l e) = true.
+Proof.
+  intros Hl He. apply fold_located; [now apply iframes_possible|].
+  unfold located, is_dge. rewrite He. discriminate.
+Qed.
+
+(* ---- the message *)
+Definition labels (f : iframe) : bool :=
+  match f with IFDefEHFunc _ | IFDefEHCompile _ | IFFieldFactory _ => true | _ => false end.
+
+Lemma nonempty_app_l a b : nonempty a = true -> nonempty (a ++ b)%string = true.
+Proof. destruct a; [discriminate|reflexivity]. Qed.
+Lemma nonempty_app_r a b : nonempty b = true -> nonempty (a ++ b)%string = true.
+Proof. destruct a; cbn; [trivial|reflexivity]. Qed.
+
+Lemma wrap_keeps_message f e :
+  iframe_possible f = true -> nonempty (x_msg e) = true -> nonempty (x_msg (wrap_or_replace f e)) = true.
+Proof.
+  intros Hp He. destruct (wrap_total f e Hp) as [e' [Hw _]]. rewrite (wrap_or_replace_ok _ _ _ Hw).
+  destruct f; cbn [wrap] in Hw; unfold fix_exception in Hw;
+    try rewrite format_T_func in Hw; try rewrite format_T_field in Hw.
+  all: try (inversion Hw; subst; cbn; (exact He || reflexivity)).
+  - cbn in Hp. destruct definition; [discriminate|]. rewrite format_T_parse in Hw. inversion Hw; subst. reflexivity.
+  - destruct (is_dge e); inversion Hw; subst; [exact He|]. cbn [x_msg dge_at].
+    apply nonempty_app_r. reflexivity.
+  - destruct (is_dge e).
+    + inversion Hw; subst. exact He.
+    + rewrite format_T_var in Hw. inversion Hw; subst. reflexivity.
+  - destruct (is_count_conversion_error (x_cls e)); inversion Hw; subst; [reflexivity | exact He].
+Qed.
+
+Lemma wrap_label_message f e :
+  iframe_possible f = true -> labels f = true -> nonempty (x_msg (wrap_or_replace f e)) = true.
+Proof.
+  intros Hp Hl. destruct (wrap_total f e Hp) as [e' [Hw _]]. rewrite (wrap_or_replace_ok _ _ _ Hw).
+  destruct f; try discriminate; cbn [wrap] in Hw; unfold fix_exception in Hw.
+  - rewrite format_T_func in Hw. inversion Hw; subst. reflexivity.
+  - cbn in Hp. destruct definition; [discriminate|]. rewrite format_T_parse in Hw. inversion Hw; subst. reflexivity.
+  - rewrite format_T_field in Hw. inversion Hw; subst. reflexivity.
+Qed.
+
+Lemma fold_message fs : forall e,
+  forallb iframe_possible fs = true ->
+  nonempty (x_msg e) = true \/ existsb labels fs = true ->
+  nonempty (x_msg (fold_left (fun e f => wrap_or_replace f e) fs e)) = true.
+Proof.
+  induction fs as [|f fs IH]; intros e Hp H; cbn [fold_left].
+  - destruct H as [H|H]; [exact H|discriminate].
+  - cbn in Hp. apply andb_prop in Hp as [Hf Hfs]. apply IH; [assumption|].
+    destruct H as [H|H].
+    + left. now apply wrap_keeps_message.
+    + cbn in H. apply orb_prop in H as [H|H]; [left; now apply wrap_label_message | now right].
+Qed.
+
+Theorem escape_v_message p l e :
+  ileaf_possible l = true ->
+  nonempty (x_msg e) = true \/ existsb labels (iframes p l) = true ->
+  nonempty (x_msg (escape_v p l e)) = true.
+Proof. intros Hl H. apply fold_message; [now apply iframes_possible|exact H]. Qed.
+
+
+From Coq Require Import PeanoNat.
+Open Scope nat_scope.
+(* ================================================================== the alias walk *)
+Lemma memn_true i l : memn i l = true <-> In i l.
+Proof.
+  unfold memn. rewrite existsb_exists. split.
+  - intros [x [Hx He]]. apply Nat.eqb_eq in He. now subst.
+  - intros H. exists i. split; [assumption|apply Nat.eqb_refl].
+Qed.
+
+Lemma memn_false i l : memn i l = false <-> ~ In i l.
+Proof. rewrite <- memn_true. destruct (memn i l); split; congruence. Qed.
+
+(* a member slot is settled by a list of finished containers when it holds a scalar or a finished container *)
+Definition settled (h : heap) (fin : list nat) (c : nat) : Prop :=
+  exists m, nth_error h c = Some m /\ (is_container m = false \/ In c fin).
+
+(* finished containers in the order they were finished, latest first: the members of each were settled before *)
+Fixpoint topo (h : heap) (fin : list nat) : Prop :=
+  match fin with
+  | [] => True
+  | i :: r => (exists n, nth_error h i = Some n /\ forall c, In c (children n) -> settled h r c) /\ topo h r
+  end.
+
+Lemma settled_mono h fin new c : settled h fin c -> settled h (new ++ fin) c.
+Proof. intros [m [Hm [H|H]]]; exists m; split; auto. right. apply in_or_app. now right. Qed.
+
+Definition sumkids (h : heap) (l : list nat) : nat := list_sum (map (kids h) l).
+
+Lemma sumkids_app h a b : sumkids h (a ++ b) = sumkids h a + sumkids h b.
+Proof. unfold sumkids. now rewrite map_app, list_sum_app. Qed.
+
+(* what one invocation (or a run of invocations) does to the state *)
+Definition extends (h : heap) (anc : list nat) (budget : nat) (st st' : astate) : Prop :=
+  exists new,
+    a_fin st' = new ++ a_fin st /\
+    (forall x, In x new -> ~ In x anc) /\
+    a_calls st' <= a_calls st + budget + sumkids h new /\
+    NoDup (a_fin st') /\
+    topo h (a_fin st').
+
+Lemma aloop_inv h anc (rec : nat -> astate -> result astate) :
+  (forall c st st', rec c st = Ok st' -> NoDup (a_fin st) -> topo h (a_fin st) ->
+                    extends h anc 1 st st' /\ settled h (a_fin st') c) ->
+  forall cs st st', aloop rec cs st = Ok st' -> NoDup (a_fin st) -> topo h (a_fin st) ->
+    extends h anc (length cs) st st' /\ forall c, In c cs -> settled h (a_fin st') c.
+Proof.
+  intros Hrec. induction cs as [|c cs IH]; intros st st' H Hnd Htp; cbn in H.
+  - inversion H; subst. split; [|intros c []].
+    exists []. cbn. repeat split; auto. unfold sumkids; cbn; lia.
+  - destruct (rec c st) as [s1|] eqn:Hc; [|discriminate].
+    destruct (Hrec _ _ _ Hc Hnd Htp) as [[n1 [F1 [A1 [C1 [N1 T1]]]]] S1].
+    destruct (IH _ _ H N1 T1) as [[n2 [F2 [A2 [C2 [N2 T2]]]]] S2].
+    split.
+    + exists (n2 ++ n1). split; [|split; [|split; [|split]]].
+      * rewrite F2, F1. now rewrite app_assoc.
+      * intros x Hx. apply in_app_or in Hx as [Hx|Hx]; auto.
+      * rewrite sumkids_app. cbn [length]. lia.
+      * exact N2.
+      * exact T2.
+    + intros x [->|Hx]; [|now apply S2].
+      rewrite F2. now apply settled_mono.
+Qed.
+
+Lemma acheck_inv h : forall fuel anc i st st',
+  acheck h fuel anc i st = Ok st' -> NoDup (a_fin st) -> topo h (a_fin st) ->
+  extends h anc 1 st st' /\ settled h (a_fin st') i.
+Proof.
+  induction fuel as [|f IH]; intros anc i st st' H Hnd Htp; cbn [acheck] in H; [discriminate|].
+  destruct (nth_error h i) as [n|] eqn:Hn; [|discriminate].
+  cbn [a_fin] in H.
+  destruct (negb (is_container n) || memn i (a_fin st)) eqn:Hskip.
+  - inversion H; subst. split.
+    + exists []. cbn. repeat split; auto. unfold sumkids; cbn; lia.
+    + exists n. split; [assumption|]. cbn [a_fin].
+      apply orb_prop in Hskip as [Hl|Hm].
+      * left. now destruct (is_container n).
+      * right. now apply memn_true.
+  - apply orb_false_elim in Hskip as [Hcont Hnf].
+    destruct (memn i anc) eqn:Hia; [discriminate|].
+    destruct (aloop (acheck h f (i :: anc)) (children n) {| a_fin := a_fin st; a_calls := S (a_calls st) |}) as [s1|] eqn:Hl;
+      [|discriminate].
+    inversion H; subst; clear H.
+    destruct (aloop_inv h (i :: anc) (acheck h f (i :: anc)) (fun c s s' Hc => IH (i :: anc) c s s' Hc)
+                        _ _ _ Hl Hnd Htp) as [[new [F [A [C [N T]]]]] Hs].
+    cbn [a_fin a_calls] in *.
+    apply memn_false in Hnf. apply memn_false in Hia.
+    assert (Hni : ~ In i (a_fin s1)).
+    { rewrite F. intros Hin. apply in_app_or in Hin as [Hin|Hin]; [|contradiction].
+      apply A in Hin. apply Hin. now left. }
+    split.
+    + exists (i :: new). cbn [a_fin a_calls]. split; [|split; [|split; [|split]]].
+      * rewrite F. reflexivity.
+      * intros x [<-|Hx]; [assumption|]. intros Hxa. apply A in Hx. apply Hx. now right.
+      * unfold sumkids in *. cbn [map list_sum]. unfold kids at 1. rewrite Hn. unfold list_sum in *. cbn [fold_right]. lia.
+      * constructor; assumption.
+      * cbn [topo]. split; [|exact T]. exists n. split; [assumption|exact Hs].
+    + exists n. split; [assumption|]. right. now left.
+Qed.
+
+(* ---- sums over distinct indices *)
+Lemma list_sum_nodup_incl (F : nat -> nat) : forall l m,
+  NoDup l -> incl l m -> list_sum (map F l) <= list_sum (map F m).
+Proof.
+  induction l as [|x l IH]; intros m Hnd Hin; [cbn; lia|].
+  inversion Hnd as [|? ? Hx Hnd']; subst.
+  assert (Hxm : In x m) by (apply Hin; now left).
+  apply in_split in Hxm as [m1 [m2 ->]].
+  assert (Hl : incl l (m1 ++ m2)).
+  { intros y Hy. assert (Hy' : In y (m1 ++ x :: m2)) by (apply Hin; now right).
+    apply in_app_or in Hy' as [Hy'|[->|Hy']]; [apply in_or_app; now left | contradiction | apply in_or_app; now right]. }
+  specialize (IH _ Hnd' Hl). rewrite !map_app, !list_sum_app in *. cbn [map].
+  unfold list_sum in *. cbn [fold_right]. lia.
+Qed.
+
+Lemma list_sum_cons a l : list_sum (a :: l) = a + list_sum l.
+Proof. reflexivity. Qed.
+
+Lemma edges_seq h : edges h = list_sum (map (kids h) (seq 0 (length h))).
+Proof.
+  unfold edges. induction h as [|n h IH]; [reflexivity|].
+  cbn [length seq map]. rewrite <- seq_shift, map_map, !list_sum_cons, IH. reflexivity.
+Qed.
+
+Lemma topo_in_range h fin : topo h fin -> forall i, In i fin -> i < length h.
+Proof.
+  induction fin as [|x r IH]; intros Ht i Hi; [destruct Hi|].
+  destruct Ht as [[n [Hn _]] Hr]. destruct Hi as [<-|Hi]; [|now apply IH].
+  apply nth_error_Some. congruence.
+Qed.
+
+Lemma sumkids_le_edges h fin : NoDup fin -> topo h fin -> sumkids h fin <= edges h.
+Proof.
+  intros Hnd Ht. rewrite edges_seq. apply list_sum_nodup_incl; [assumption|].
+  intros i Hi. apply in_seq. pose proof (topo_in_range _ _ Ht _ Hi). lia.
+Qed.
+
+(* each container is expanded once: the finished list has no repetition, and the number of invocations is
+   at most one per member slot of the document (plus the one for the root) *)
+Theorem alias_walk_linear h root st :
+  alias_check h root = Ok st ->
+  NoDup (a_fin st) /\ a_calls st <= 1 + edges h.
+Proof.
+  unfold alias_check. intros H.
+  destruct (acheck_inv _ _ _ _ _ _ H (NoDup_nil _) I) as [[new [F [_ [C [N T]]]]] _].
+  split; [exact N|].
+  cbn [a_calls a_fin] in *. rewrite app_nil_r in F.
+  pose proof (sumkids_le_edges h (a_fin st) N T) as Hs.
+  rewrite F in Hs. lia.
+Qed.
+
+(* ---- the walk needs no more fuel than the document has containers *)
+Lemma aloop_no_oof (rec : nat -> astate -> result astate) :
+  (forall c st, rec c st <> Err OutOfFuel) -> forall cs st, aloop rec cs st <> Err OutOfFuel.
+Proof.
+  intros Hrec. induction cs as [|c cs IH]; intros st; cbn; [discriminate|].
+  destruct (rec c st) eqn:Hc; [apply IH|]. intros He. inversion He; subst. now apply (Hrec c st).
+Qed.
+
+Lemma range_length (l : list nat) n : NoDup l -> (forall x, In x l -> x < n) -> length l <= n.
+Proof.
+  intros Hnd Hr. rewrite <- (seq_length n 0). apply NoDup_incl_length; [assumption|].
+  intros x Hx. apply in_seq. specialize (Hr _ Hx). lia.
+Qed.
+
+Lemma acheck_no_oof h : forall fuel anc i st,
+  NoDup anc -> (forall x, In x anc -> x < length h) -> length h + 1 < fuel + length anc ->
+  acheck h fuel anc i st <> Err OutOfFuel.
+Proof.
+  induction fuel as [|f IH]; intros anc i st Hnd Hr Hf.
+  - pose proof (range_length _ _ Hnd Hr). cbn in Hf. lia.
+  - cbn [acheck]. destruct (nth_error h i) as [n|] eqn:Hn; [|discriminate].
+    destruct (negb (is_container n) || memn i _); [discriminate|].
+    destruct (memn i anc) eqn:Hia; [discriminate|].
+    apply memn_false in Hia.
+    assert (Hi : i < length h) by (apply nth_error_Some; congruence).
+    match goal with |- context [aloop ?r ?cs ?s] => pose proof (aloop_no_oof r) as Hl; specialize (Hl) end.
+    match goal with |- context [aloop ?r ?cs ?s] => destruct (aloop r cs s) eqn:Ha; [discriminate|] end.
+    intros He. inversion He; subst.
+    eapply Hl; [|exact Ha].
+    intros c s. apply IH.
+    + now constructor.
+    + intros x [<-|Hx]; auto.
+    + cbn [length]. lia.
+Qed.
+
+Theorem alias_walk_terminates h root : alias_check h root <> Err OutOfFuel.
+Proof.
+  unfold alias_check, alias_fuel. apply acheck_no_oof; [constructor | intros x [] | cbn; lia].
+Qed.
+
+(* ---- what the walk accepts is a finite tree *)
+Lemma mapM_all_ok {A B} (f : A -> result B) l :
+  (forall x, In x l -> exists y, f x = Ok y) -> exists ys, mapM f l = Ok ys.
+Proof.
+  induction l as [|x l IH]; intros H; cbn; [eauto|].
+  destruct (H x (or_introl eq_refl)) as [y ->].
+  destruct IH as [ys ->]; [intros; apply H; now right|]. eauto.
+Qed.
+
+Lemma unfold_topo h : forall fin, topo h fin -> forall i fuel, settled h fin i -> length fin < fuel ->
+  exists y, unfold h fuel i = Ok y.
+Proof.
+  induction fin as [|x r IH]; intros Ht i fuel [m [Hm Hs]] Hf.
+  - destruct Hs as [Hs|[]]. destruct fuel; [cbn in Hf; lia|]. cbn [unfold]. rewrite Hm.
+    destruct m; [eauto|discriminate|discriminate].
+  - destruct Ht as [[n [Hn Hk]] Hr].
+    assert (Hsub : forall c f, settled h r c -> length r < f -> exists y, unfold h f c = Ok y)
+      by (intros; now apply IH).
+    destruct Hs as [Hs|[<-|Hi]].
+    + destruct fuel; [cbn in Hf; lia|]. cbn [unfold]. rewrite Hm. destruct m; [eauto|discriminate|discriminate].
+    + destruct fuel as [|f]; [cbn in Hf; lia|]. cbn [length] in Hf. cbn [unfold]. rewrite Hn.
+      destruct n as [y|l|kv]; [eauto| |].
+      * destruct (mapM_all_ok (unfold h f) l) as [ys ->]; [|eauto].
+        intros c Hc. apply Hsub; [apply Hk; exact Hc|lia].
+      * destruct (mapM_all_ok (fun p => match unfold h f (snd p) with Ok v => Ok (fst p, v) | Err e => Err e end) kv)
+          as [ys ->]; [|eauto].
+        intros [k c] Hc. cbn [fst snd]. destruct (Hsub c f) as [y ->]; [|lia|eauto].
+        apply Hk. cbn [children]. apply in_map_iff. exists (k, c). now split.
+    + apply IH; [assumption| |cbn [length] in Hf; lia]. exists m. split; [assumption|now right].
+Qed.
+
+Theorem alias_walk_accepts_trees h root st :
+  alias_check h root = Ok st -> exists doc, unfold h (S (length h)) root = Ok doc.
+Proof.
+  unfold alias_check. intros H.
+  destruct (acheck_inv _ _ _ _ _ _ H (NoDup_nil _) I) as [[new [F [_ [C [N T]]]]] S].
+  apply (unfold_topo h (a_fin st)); [exact T|exact S|].
+  assert (length (a_fin st) <= length h); [|lia].
+  apply range_length; [exact N|].
+  apply topo_in_range. exact T.
+Qed.
+
+(* ---- the walk itself raises nothing but the recipe error *)
+Lemma aloop_err (rec : nat -> astate -> result astate) (Q : err -> Prop) :
+  (forall c st e, rec c st = Err e -> Q e) -> forall cs st e, aloop rec cs st = Err e -> Q e.
+Proof.
+  intros Hrec. induction cs as [|c cs IH]; intros st e; cbn; [discriminate|].
+  destruct (rec c st) eqn:Hc; [apply IH|]. intros He. inversion He; subst. eapply Hrec; eauto.
+Qed.
+
+Lemma acheck_err h : forall fuel anc i st e,
+  acheck h fuel anc i st = Err e -> e = OutOfFuel \/ e = BadOracle \/ e = DGE "".
+Proof.
+  induction fuel as [|f IH]; intros anc i st e; cbn [acheck]; [intros H; inversion H; auto|].
+  destruct (nth_error h i) as [n|]; [|intros H; inversion H; auto].
+  destruct (negb (is_container n) || memn i _); [discriminate|].
+  destruct (memn i anc); [intros H; inversion H; auto|].
+  match goal with |- context [aloop ?r ?cs ?s] => destruct (aloop r cs s) eqn:Ha; [discriminate|] end.
+  intros H; inversion H; subst.
+  eapply (aloop_err _ (fun e => e = OutOfFuel \/ e = BadOracle \/ e = DGE "")); [|exact Ha].
+  intros c s e0. apply IH.
+Qed.
+
+(* ---- what the walk rejects does contain itself *)
+Definition edge (h : heap) (i c : nat) : Prop := exists n, nth_error h i = Some n /\ In c (children n).
+Inductive path (h : heap) : nat -> nat -> Prop :=
+| path_step a b : edge h a b -> path h a b
+| path_more a b c : path h a b -> edge h b c -> path h a c.
+
+(* the ancestors are the way from the root down to the node at hand, nearest first *)
+Fixpoint chain (h : heap) (i : nat) (anc : list nat) : Prop :=
+  match anc with [] => True | p :: r => edge h p i /\ chain h p r end.
+
+Lemma chain_path h : forall anc i x, chain h i anc -> In x anc -> path h x i.
+Proof.
+  induction anc as [|p r IH]; intros i x Hc Hx; [destruct Hx|].
+  destruct Hc as [He Hr]. destruct Hx as [<-|Hx]; [now apply path_step|].
+  eapply path_more; [apply IH; eassumption|exact He].
+Qed.
+
+Lemma aloop_dge_in (rec : nat -> astate -> result astate) (Q : Prop) :
+  forall cs, (forall c st, In c cs -> rec c st = Err (DGE "") -> Q) ->
+  forall st, aloop rec cs st = Err (DGE "") -> Q.
+Proof.
+  induction cs as [|c cs IH]; intros Hrec st; cbn; [discriminate|].
+  destruct (rec c st) eqn:Hc.
+  - apply IH. intros c' st' Hin. apply Hrec. now right.
+  - intros He. inversion He; subst. eapply Hrec; [now left|exact Hc].
+Qed.
+
+Lemma acheck_dge_cycle h : forall fuel anc i st,
+  chain h i anc -> acheck h fuel anc i st = Err (DGE "") -> exists x, path h x x.
+Proof.
+  induction fuel as [|f IH]; intros anc i st Hch; cbn [acheck]; [discriminate|].
+  destruct (nth_error h i) as [n|] eqn:Hn; [|discriminate].
+  destruct (negb (is_container n) || memn i _); [discriminate|].
+  destruct (memn i anc) eqn:Hia.
+  - intros _. apply memn_true in Hia. exists i. eapply chain_path; eassumption.
+  - match goal with |- context [aloop ?r ?cs ?s] => destruct (aloop r cs s) eqn:Ha; [discriminate|] end.
+    intros H; inversion H; subst.
+    eapply aloop_dge_in; [|exact Ha].
+    intros c s Hin. apply IH. split; [|assumption]. exists n. now split.
+Qed.
+
+Theorem alias_walk_rejects_cycles h root :
+  alias_check h root = Err (DGE "") -> exists x, path h x x.
+Proof. unfold alias_check. apply acheck_dge_cycle. exact I. Qed.
+
+
+(* ================================================================== the document as a graph *)
+Lemma unfold_err h : forall fuel i e, unfold h fuel i = Err e -> e = OutOfFuel \/ e = BadOracle.
+Proof.
+  induction fuel as [|f IH]; intros i e; cbn [unfold]; [intros H; inversion H; auto|].
+  destruct (nth_error h i) as [[y|l|kv]|]; try discriminate; try (intros H; inversion H; auto; fail).
+  - destruct (mapM (unfold h f) l) eqn:Hm; [discriminate|]. intros H; inversion H; subst.
+    apply (mapM_safe (fun e => e = OutOfFuel \/ e = BadOracle) (unfold h f) l); [|exact Hm].
+    intros x _ e0 He0. eapply IH; eassumption.
+  - match goal with |- context [mapM ?g kv] => destruct (mapM g kv) eqn:Hm; [discriminate|];
+      intros H; inversion H; subst;
+      apply (mapM_safe (fun e => e = OutOfFuel \/ e = BadOracle) g kv); [|exact Hm] end.
+    intros [k c] _ e0. cbn [fst snd]. destruct (unfold h f c) eqn:Hu; [discriminate|].
+    intros He0; inversion He0; subst. eapply IH; eassumption.
+Qed.
+
+Lemma alias_check_err h root e :
+  alias_check h root = Err e -> e = BadOracle \/ e = DGE "".
+Proof.
+  intros H. destruct (acheck_err _ _ _ _ _ _ H) as [->|[->| ->]]; auto.
+  destruct (alias_walk_terminates _ _ H).
+Qed.
+
+(* the whole static phase on a document with anchors: never an internal failure of Snowfakery's own *)
+Theorem validate_graph_never_crashes E ff mf h root s :
+  validate_graph E ff mf h root = Err (Internal s) -> In s (env_crashes E).
+Proof.
+  unfold validate_graph. destruct (alias_check h root) as [st|e] eqn:Ha.
+  - destruct (unfold h (S (length h)) root) as [doc|e] eqn:Hu.
+    + apply validate_never_crashes.
+    + intros H; inversion H; subst. destruct (unfold_err _ _ _ _ Hu); discriminate.
+  - intros H; inversion H; subst. destruct (alias_check_err _ _ _ Ha); discriminate.
+Qed.
+
+(* ... and it comes to an end: the alias walk and the unfolding need no more fuel than the document has
+   containers; the rest is validate_terminates *)
+Theorem validate_graph_terminates E ff mf h root :
+  (S (length (fenv E)) < ff)%nat ->
+  (forall doc c, unfold h (S (length h)) root = Ok doc ->
+                 load_file E ff [] "" doc ctx0 = Ok c -> (length (c_macros c) < mf)%nat) ->
+  validate_graph E ff mf h root <> Err OutOfFuel.
+Proof.
+  intros Hff Hmf. unfold validate_graph. destruct (alias_check h root) as [st|e] eqn:Ha.
+  - destruct (alias_walk_accepts_trees _ _ _ Ha) as [doc Hu]. rewrite Hu.
+    apply validate_terminates; [exact Hff|]. intros c. now apply Hmf.
+  - intros H; inversion H; subst. now apply (alias_walk_terminates h root).
+Qed.
